@@ -10,10 +10,10 @@ use crate::Prop;
 
 pub struct C17;
 
-const GOOD_NUM: [&str; 38] = [
+const GOOD_NUM: [&str; 41] = [
     "0", "7", "-3", "+4", "1.5", "-.25", "3.", "1E2", "1e2", "2D1", "1.5E-1", "32767", "-32768", "32768", "40000", "&H1F",
     "&hff", "&17", "", "  12  ", "1E5", "0.1", "&HD", "&h1d", "&HAD", " &H7D0 ", "&H1E", "&hE2", "&HDE", "&h7fff", "&77777",
-    "&0", "&H0", "2d-1", "1D+2", "1.25d1", "007", "-0.5",
+    "&0", "&H0", "2d-1", "1D+2", "1.25d1", "007", "-0.5", " ", "   ", " -2",
 ];
 const BAD_NUM: [&str; 18] = ["x", "1x", "--1", "1 2", "12AB", "inf", "nan", ".", "E5", "&HG", "&8", "\"5\"", "&", "&H", "&h", "&é", "é", "&H1G"];
 const STRS: [&str; 12] = ["HELLO", "hello world", "", "  padded  ", "\"quoted\"", "\"a,b\"", "\"  keep  \"", "é→ß", "\"", "a\"b", "\"x", "12"];
@@ -256,13 +256,47 @@ impl Prop for C17 {
         mon::journal(&text);
         let mut s = Session::new();
         s.drain(8);
+        // one case in five: the statement is line 10 of a program, and at one of the prompts a break arrives
+        // instead of the reply; CONT must show the same prompt again and the replies go on from there
+        let as_program = rng.chance(1, 5);
+        let break_at = if as_program && rng.chance(2, 3) { Some(rng.usize(used.max(1))) } else { None };
+        let text = if as_program { format!("10 {}\nRUN{}", text, break_at.map(|k| format!("\n(break instead of reply {}, then CONT)", k + 1)).unwrap_or_default()) } else { text };
+        if as_program {
+            s.command(&format!("10 {}", stmt), 16);
+        }
         let mark = s.mark();
-        s.enter(&stmt);
+        s.enter(if as_program { "RUN" } else { &stmt });
         let mut fed = 0;
         let mut stopped = false;
+        let mut got = String::new();
+        let mut seg = mark;
         for _ in 0..200 {
             match s.drain(64) {
                 Stop::Input(..) => {
+                    if break_at == Some(fed) && seg == mark {
+                        got.push_str(&transcript(s.events_since(seg), Norm::STD));
+                        let m2 = s.mark();
+                        s.interrupt();
+                        let st = s.drain(64);
+                        let brk = transcript(s.events_since(m2), Norm::STD);
+                        s.enter("CONT");
+                        seg = s.mark();
+                        let again = s.drain(64);
+                        let t2 = transcript(s.events_since(seg), Norm::STD);
+                        let marker = format!("<INPUT {:?} caps={}>", expect_prompt, !comma);
+                        ctx.count("prompts_broken_and_continued");
+                        if st != Stop::Stopped || !brk.contains("?BREAK IN 10") || !matches!(again, Stop::Input(..)) || t2 != marker {
+                            ctx.violation(
+                                "prompt-not-reissued",
+                                "input:break-cont",
+                                &format!("{}\n break at the prompt gave {:?} ({:?}); CONT then gave {:?} ({:?}), expected the prompt {:?} again", text, brk, st, t2, again, marker),
+                                &text,
+                            );
+                            return;
+                        }
+                        // the re-issued prompt stands for the one that was interrupted
+                        seg = s.mark();
+                    }
                     if fed < used {
                         s.enter(&replies[fed]);
                         fed += 1;
@@ -277,7 +311,7 @@ impl Prop for C17 {
                 _ => break,
             }
         }
-        let got = transcript(s.events_since(mark), Norm::STD);
+        got.push_str(&transcript(s.events_since(seg), Norm::STD));
         ctx.eval(&text, interesting);
         ctx.add("replies_entered", fed as u64);
         ctx.count(if done { "statements_completed" } else { "statements_left_pending" });
